@@ -46,6 +46,10 @@ try:
     rc0, o0 = demo_run()
     res['demo_without_patch'] = dict(exit=rc0, tail=o0)
     ap_ = subprocess.run(['git', '-C', scratch, 'apply', patch], stderr=subprocess.PIPE, text=True)
+    if ap_.returncode != 0:
+        # the patch was written against an earlier HEAD (before a later fix: commit): three-way apply
+        ap_ = subprocess.run(['git', '-C', scratch, 'apply', '-3', patch], stderr=subprocess.PIPE, text=True)
+        subprocess.run(['git', '-C', scratch, 'reset', '-q'])
     res['patch_applies'] = ap_.returncode == 0
     if ap_.returncode != 0:
         res['apply_error'] = ap_.stderr[-300:]
